@@ -169,7 +169,8 @@ def main():
         except B.BuildError as e:
             cov["build_failed"] = {"stage": e.stage, "log_tail": e.log[-3000:]}
             m = re.search(r'File "\./([^"]+)", line (\d+)', e.log)
-            broken.append(f"build:{e.stage}:" + (f"{m.group(1)}:{m.group(2)}" if m else "?"))
+            last = [l for l in e.log.strip().split("\n") if l.strip()][-1:] or ["?"]
+            broken.append(f"build:{e.stage}:" + (f"{m.group(1)}:{m.group(2)}" if m else last[0][:300]))
             # the model cannot be rebuilt: fall back to the last built driver for the search, if any
             info = None
         files = transitive_files([f"Props/{pid}.v"])
